@@ -21,6 +21,7 @@ import (
 	"path/filepath"
 
 	"github.com/btcsuite/btcwallet/walletdb"
+	"github.com/lightninglabs/neutrino"
 	"github.com/lightninglabs/neutrino/headerfs"
 
 	c "verifharness/internal/common"
@@ -268,16 +269,27 @@ func (a *Assertion) header(pool *storeh.Pool) *headerfs.FilterHeader {
 
 // evalImageA opens the stores on an image (the filter store with the given
 // assertion, if any), dumps them and appends a follow-up header.
-func evalImageA(dir string, pool *storeh.Pool, followTok int64, as *Assertion) (bool, []Op) {
+func evalImageA(dir string, pool *storeh.Pool, followTok int64, as *Assertion, probe ...int64) (bool, []Op) {
 	e := &storeh.Env{Dir: dir, Pool: pool, Assert: as.header(pool)}
 	if err := e.Open(); err != nil {
 		return false, []Op{}
 	}
 	e.Assert = nil
 	defer e.Close()
+	return true, dumpFollow(e, pool, followTok, probe...)
+}
+
+// dumpFollow dumps the open stores of e and appends the follow-up header.
+func dumpFollow(e *storeh.Env, pool *storeh.Pool, followTok int64, probe ...int64) []Op {
 	g := &storeh.Gen{E: e, Used: map[int64]bool{}}
 	g.Resync()
 	ops := storeh.FullDump(g)
+	if len(g.Chain) > 400 {
+		ops = lightDump(g)
+	}
+	for _, t := range probe {
+		ops = append(ops, Op{Kind: "qheightof", X: t, WF: true}, Op{Kind: "qbhash", X: t, WF: true})
+	}
 	// follow-up: syncing resumes - append one block header at tip+1, read it
 	// back, append a filter header if the filter chain is behind
 	if _, tip, err := e.BS.ChainTip(); err == nil {
@@ -299,7 +311,67 @@ func evalImageA(dir string, pool *storeh.Pool, followTok int64, as *Assertion) (
 		e.Exec(&ops[i])
 		post = append(post, ops[i])
 	}
+	return post
+}
+
+func init() { neutrino.DisableDNSSeed = true }
+
+// chainServiceCfg is the configuration of a ChainService that is constructed
+// but never started: no peers, no DNS seeds, nothing persisted besides what
+// NewChainService itself creates.
+func chainServiceCfg(dir string, db walletdb.DB) neutrino.Config {
+	return neutrino.Config{DataDir: dir, Database: db, ChainParams: *storeh.Params}
+}
+
+// closeChainService releases what a constructed, never started ChainService
+// holds open (the two flat files).
+func closeChainService(cs *neutrino.ChainService) {
+	if cs.BlockHeaders != nil {
+		headerfs.VerifCloseBlockFile(cs.BlockHeaders)
+	}
+	if cs.RegFilterHeaders != nil {
+		headerfs.VerifCloseFilterFile(cs.RegFilterHeaders)
+	}
+}
+
+// evalImageCS reopens an image through neutrino.NewChainService, dumps both
+// header stores through the service's own handles and appends the follow-up
+// header.
+func evalImageCS(dir string, pool *storeh.Pool, followTok int64) (bool, []Op) {
+	raw, err := storeh.OpenDB(dir)
+	if err != nil {
+		return false, []Op{}
+	}
+	defer raw.Close()
+	fdb := &storeh.FDB{DB: raw}
+	cs, err := neutrino.NewChainService(chainServiceCfg(dir, fdb))
+	if err != nil {
+		// a constructor that failed half-way leaves its files open; they
+		// go away with the process
+		return false, []Op{}
+	}
+	e := &storeh.Env{Dir: dir, Pool: pool}
+	e.Adopt(fdb, cs.BlockHeaders, cs.RegFilterHeaders)
+	post := dumpFollow(e, pool, followTok)
+	closeChainService(cs)
 	return true, post
+}
+
+// lightDump pins down a long chain at its ends and a few heights in between
+// (the full dump of thousands of entries would dominate the replay).
+func lightDump(g *storeh.Gen) []Op {
+	ops := []Op{{Kind: "qbtip", WF: true}, {Kind: "qftip", WF: true}}
+	n := int64(len(g.Chain))
+	for _, h := range []int64{0, 1, 2, n / 2, 999, 1000, 1001, n - 2, n - 1, n, n + 1} {
+		if h < 0 {
+			continue
+		}
+		ops = append(ops, Op{Kind: "qbheight", N: h, WF: true}, Op{Kind: "qfheight", N: h, WF: true})
+		if h < n {
+			ops = append(ops, Op{Kind: "qheightof", X: g.Chain[h], WF: true})
+		}
+	}
+	return ops
 }
 
 func followTok(pool *storeh.Pool, n int) int64 {
@@ -391,6 +463,61 @@ func runFirstStart(id int, seed int64, base string, pool *storeh.Pool, replay *H
 
 	emit(false, o1)
 	emit(true, o2)
+	return h
+}
+
+// ---------------------------------------------------------------------
+// First start through neutrino.NewChainService: the ORDER in which the
+// service opens the two stores is part of what makes the first start
+// crash-safe (the filter store's tip is resolved through the block store's
+// index entry).  The real constructor runs on an empty data directory; the
+// directory is snapshotted at every committed transaction of any component
+// (filter db, header stores, ban store); the header-store sub-sequence of
+// the observed steps is compared with the model's first_steps_b ++
+// first_steps_f; every image is reopened through NewChainService again.
+
+func runFirstStartCS(id int, seed int64, base string, pool *storeh.Pool, replay *History) History {
+	h := History{ID: id, FirstStart: true, ViaCS: true, Startup: &StartupSpec{}}
+	if replay != nil && replay.Startup != nil {
+		h.Startup = replay.Startup
+	}
+	r := c.Rng(seed, id)
+	work := filepath.Join(base, fmt.Sprintf("firstcs-%d", id))
+	os.RemoveAll(work)
+	if err := os.MkdirAll(work, 0o755); err != nil {
+		panic(err)
+	}
+	defer os.RemoveAll(work)
+	raw, err := storeh.OpenDB(work)
+	if err != nil {
+		panic(err)
+	}
+	fdb := &storeh.FDB{DB: raw}
+	torn := tornList(h.Startup, replay != nil && replay.Startup != nil, r)
+
+	o := &observer{base: base, tag: fmt.Sprintf("%d-cs", id), work: work}
+	o.snap(0)
+	fdb.OnCommitW = func(n int) { o.snap(n) }
+	cs, err := neutrino.NewChainService(chainServiceCfg(work, fdb))
+	fdb.OnCommitW = nil
+	if err != nil {
+		panic(err)
+	}
+	o.snap(0)
+	closeChainService(cs)
+	raw.Close()
+
+	steps := derive(o.snaps, true)
+	kinds := kindsOf(steps)
+	for _, im := range o.images(steps, torn) {
+		opened, post := evalImageCS(im.dir, pool, followTok(pool, len(h.SCases)))
+		os.RemoveAll(im.dir)
+		h.SCases = append(h.SCases, SCase{
+			ID: id*1000 + 500 + len(h.SCases), Kind: 3, AH: -1, K: im.k, Torn: im.torn,
+			Kinds: kinds, Opened: opened, Post: post, Real: im.real,
+		})
+	}
+	o.cleanup()
 	return h
 }
 
